@@ -1177,6 +1177,9 @@ def fail_events(model: TopoModel):
     for pos in ('first', 'middle', 'last'):
         ev.append(('fail', 'node-bad-property', pos))
     ev.append(('fail', 'node-unknown-property'))
+    if names:
+        # a node created together with two services (ns_info), the second of which has an id that is taken
+        ev.append(('fail', 'node-nested-service-duplicate-id', nodes[names[0]].node_id))
     ev.append(('fail', 'facility-bad-interface-property'))
     ev.append(('fail', 'facility-colliding-ids'))
     ev.append(('fail', 'facility-duplicate-interface-names'))
@@ -1332,6 +1335,17 @@ def _do_fail(model: TopoModel, ev):
     nid = (lambda s: 'id-' + s) if sub else (lambda s: None)
     if kind == 'node-bad-name':
         t.add_node(name=ev[2], site='S1', node_id=nid('bad'))
+    elif kind == 'node-nested-service-duplicate-id':
+        from fim.slivers.network_service import NetworkServiceInfo, NetworkServiceSliver, NSLayer
+        nsi = NetworkServiceInfo()
+        for nm, sid in (('nsa', 'id-nsa-fresh'), ('nsb', ev[2])):
+            sl = NetworkServiceSliver()
+            sl.set_name(nm)
+            sl.set_type(ServiceType.OVS)
+            sl.set_layer(NSLayer.L2)
+            sl.node_id = sid
+            nsi.add_network_service(sl)
+        t.add_node(name='nnested', site='S1', node_id=nid('nnested'), ns_info=nsi)
     elif kind == 'node-no-site':
         t.add_node(name='nx', site=None, node_id=nid('nx'))
     elif kind == 'node-no-type':
